@@ -2,6 +2,7 @@
 package c20
 
 import (
+	"context"
 	"fmt"
 	"os"
 	"path/filepath"
@@ -11,6 +12,7 @@ import (
 	"time"
 
 	"github.com/TarsCloud/TarsGo/tars"
+	"github.com/TarsCloud/TarsGo/tars/util/current"
 	"github.com/TarsCloud/TarsGo/tars/util/rogger"
 
 	"verifsim/scen"
@@ -104,8 +106,10 @@ type S struct {
 func (s *S) Prepare(c *scen.Ctx) {
 	rogger.FlushLogger() // retire the init-time flusher (outside the bubble)
 }
-func (s *S) YieldOff() []string { return []string{"tars/util/rtimer", "tars/transport", "tars/selector", "tars/util/gpool"} }
-func (s *S) NoStalls() bool { return true } // a flusher stalled past the flush timeout loses entries legitimately
+func (s *S) YieldOff() []string {
+	return []string{"tars/util/rtimer", "tars/transport", "tars/selector", "tars/util/gpool"}
+}
+func (s *S) NoStalls() bool               { return true } // a flusher stalled past the flush timeout loses entries legitimately
 func (s *S) Limits() (time.Duration, int) { return 30 * time.Second, 200000 }
 
 var tokRe = regexp.MustCompile(`<<g(\d+)-(\d+)>>`)
@@ -167,6 +171,18 @@ func (s *S) Run(c *scen.Ctx) {
 		switchAfter = simrt.Draw(total+1, "c20.switchafter")
 		c.Count("fault.writer_replaced_with_backlog", 1)
 	}
+	// dyed requests: their entries are also offered to the dyeing queue, which the application is
+	// supposed to consume; in half of the runs nobody does and the queue is full
+	dyed := current.ContextWithTarsCurrent(context.Background())
+	current.SetDyeingKey(dyed, "user-7")
+	anyDyed := false
+	if simrt.Draw(2, "c20.dyequeuefull") == 1 {
+		q := rogger.GetDyeingLogQueue()
+		for len(*q) < cap(*q) {
+			*q <- nil
+		}
+		c.Count("fault.dyeing_queue_full", 1)
+	}
 	var returnedCalls int
 	tick := make(chan struct{}, total+1)
 	var wg sync.WaitGroup
@@ -174,7 +190,11 @@ func (s *S) Run(c *scen.Ctx) {
 		g := g
 		wg.Add(1)
 		wi := simrt.Draw(nw, "c20.which")
-		kind := simrt.Draw(4, "c20.kind")
+		kind := simrt.Draw(5, "c20.kind")
+		if kind == 4 && !anyDyed {
+			anyDyed = true
+			c.Count("probe.entries_of_dyed_requests", 1)
+		}
 		simrt.GoNamed(fmt.Sprintf("logger%d", g), func() {
 			defer wg.Done()
 			for k := 0; k < per; k++ {
@@ -190,6 +210,9 @@ func (s *S) Run(c *scen.Ctx) {
 					loggers[wi].Debugf("entry %s", e.id)
 				case 3:
 					loggers[wi].Trace("trace " + e.id + strings.Repeat(".", k%3))
+				case 4:
+					// a dyed request: the entry goes to the logger's own log and, as a copy, to the dyeing queue
+					loggers[wi].DyeingInfof(dyed, nil, "entry %s", e.id)
 				default:
 					loggers[wi].Info("entry ", e.id)
 				}
